@@ -1,6 +1,7 @@
 #!/venv/bin/python
 """pytrans5.py — fail-closed translator of the write path of hpfeeds/blocking/reactor.py (Reactor.write,
-Reactor._socket_write_ready, Reactor._outbox_read_ready) to Gallina (coq/ReactorGen.v), in the layer of coq/PyReactor.v.
+Reactor._socket_write_ready, Reactor._outbox_read_ready) and of the primitive steps of Queue.put / Queue.get
+(hpfeeds/blocking/queue.py) to Gallina (coq/ReactorGen.v), in the layer of coq/PyReactor.v.
 coq/ReactorGenEq.v proves the translated methods equal to the steps of the model (Reactor.v) the C20 theorems are about.
 
 What sock.send / get_nowait do on a given call is an oracle argument (`so`, `go`) of the translated method.
@@ -179,6 +180,51 @@ class Fn:
         raise Unsupported(s, 'statement')
 
 
+def queue_steps():
+    """hpfeeds/blocking/queue.py: Queue.put / Queue.get as the sequences of the model's primitive steps (Reactor.qev), in the
+    source's order: the superclass put / get, and one wake-up byte sent / received on the socket pair"""
+    path = 'hpfeeds/blocking/queue.py'
+    tree = ast.parse(open(os.path.join(REPO, path)).read())
+    cls = [s for s in tree.body if isinstance(s, ast.ClassDef) and s.name == 'Queue']
+    if len(cls) != 1:
+        raise Unsupported(path, 'class Queue')
+
+    def sup(c, name, args):
+        return (isinstance(c, ast.Call) and is_attr(c.func, name) and isinstance(c.func.value, ast.Call) and is_name(c.func.value.func, 'super')
+                and [a.id for a in c.args if is_name(a)] == args and len(c.args) == len(args) and not c.keywords)
+    out = {}
+    for m in cls[0].body:
+        if not isinstance(m, ast.FunctionDef) or m.name not in ('put', 'get'):
+            continue
+        if m.decorator_list:
+            raise Unsupported(m, 'decorated')
+        params = [a.arg for a in m.args.args][1:]
+        body = [x for x in m.body if not (isinstance(x, ast.Expr) and isinstance(x.value, ast.Constant))]
+        steps = []
+        for s in body:
+            if m.name == 'put' and isinstance(s, ast.Expr) and sup(s.value, 'put', params):
+                steps.append('PutItem item')
+            elif (m.name == 'put' and isinstance(s, ast.Expr) and isinstance(s.value, ast.Call) and is_attr(s.value.func, 'send')
+                  and self_attr(s.value.func.value, '_putsocket') and len(s.value.args) == 1 and isinstance(s.value.args[0], ast.Constant)
+                  and isinstance(s.value.args[0].value, bytes) and len(s.value.args[0].value) == 1):
+                steps.append('PutWake')
+            elif (m.name == 'get' and isinstance(s, ast.Expr) and isinstance(s.value, ast.Call) and is_attr(s.value.func, 'recv')
+                  and self_attr(s.value.func.value, '_getsocket') and len(s.value.args) == 1 and isinstance(s.value.args[0], ast.Constant)
+                  and s.value.args[0].value == 1):
+                steps.append('GetWake')
+            elif m.name == 'get' and isinstance(s, ast.Return) and sup(s.value, 'get', params[:1]):
+                steps.append('GetItem')
+            else:
+                raise Unsupported(s, 'statement of Queue.%s' % m.name)
+        if m.name == 'put' and (not params or params[0] != 'item'):
+            raise Unsupported(m, 'parameters of put')
+        out[m.name] = steps
+    if set(out) != {'put', 'get'}:
+        raise Unsupported(path, 'Queue.put / Queue.get')
+    return ['(* %s: Queue.put - its primitive steps, in order *)\nDefinition Queue_put (item : nat) : list qev := [%s].' % (path, '; '.join(out['put'])),
+            '(* %s: Queue.get - its primitive steps, in order *)\nDefinition Queue_get : list qev := [%s].' % (path, '; '.join(out['get']))]
+
+
 def main():
     try:
         tree = ast.parse(open(os.path.join(REPO, SRC)).read())
@@ -206,6 +252,7 @@ def main():
             binders += ''.join(' (%s : bytes)' % p for p in params)
             defs.append('(* %s: Reactor.%s *)\nDefinition Reactor_%s%s : PM (option bool) :=\n  pfn %s.'
                         % (SRC, name, name.lstrip('_'), binders, body))
+        defs.extend(queue_steps())
         txt = ('(* GENERATED by harness/pytrans5.py from %s - do not edit *)\n'
                'From Coq Require Import List Bool Arith.\nFrom HP Require Import Bytes Reactor PyReactor.\nImport ListNotations.\n\n'
                % os.path.join(REPO, SRC)) + '\n\n'.join(defs) + '\n'
